@@ -100,7 +100,7 @@ for (f, checks, text, (ln, what, newline)) in todo:
         if b.returncode != 0:
             rec["status"] = "does-not-build"
             continue
-        st = subprocess.run(["/tmp/wt/run_stable.py"], env=dict(env, REPO_DIR=wt), stdout=subprocess.PIPE, text=True, timeout=900)
+        st = subprocess.run([VERIF_HOME + "/tools/run_stable.py"], env=dict(env, REPO_DIR=wt), stdout=subprocess.PIPE, text=True, timeout=900)
         if "103/103" not in st.stdout:
             rec["status"] = "killed-by-existing-tests"
             continue
